@@ -119,20 +119,26 @@ func main() {
 	if *only != "" {
 		onlyRe = regexp.MustCompile(*only)
 	}
-	for _, fn := range fns {
-		if onlyRe != nil && !onlyRe.MatchString(funcKey(fn)) {
-			continue
-		}
-		u := eng.RunFunc(fn, eng.contracts[fn])
-		units = append(units, u)
+	runFn := func(fn *types.Func, fc *FuncContract) []*Unit {
+		u := eng.RunFunc(fn, fc)
+		us := []*Unit{u}
 		queue := append([]*Unit(nil), u.subUnits...)
 		for len(queue) > 0 {
 			su := queue[0]
 			queue = queue[1:]
 			su.runLit()
-			units = append(units, su)
+			us = append(us, su)
 			queue = append(queue, su.subUnits...)
 		}
+		return us
+	}
+	fnUnits := map[*types.Func][]*Unit{}
+	for _, fn := range fns {
+		if onlyRe != nil && !onlyRe.MatchString(funcKey(fn)) {
+			continue
+		}
+		fnUnits[fn] = runFn(fn, eng.contracts[fn])
+		units = append(units, fnUnits[fn]...)
 	}
 	lemmaUnit := eng.lemmaUnit(prop)
 	if lemmaUnit != nil && onlyRe == nil {
@@ -175,15 +181,20 @@ func main() {
 	// collect obligations of this property
 	var obls []*Obligation
 	var engineFailures []string
+	// units whose contract could not be evaluated against the current source because a name it mentions
+	// (a local variable, a field, a loop or literal ordinal) no longer resolves: the contract is stale,
+	// e.g. after a rename. Their obligations are undecided, not violated.
+	staleUnits := map[string]string{}
+	collect := func() {
+	obls, engineFailures = nil, nil
+	for k := range staleUnits {
+		delete(staleUnits, k)
+	}
 	for _, sc := range eng.staleContracts {
 		if hasProp(sc.props, prop) {
 			engineFailures = append(engineFailures, sc.name+": "+sc.msg)
 		}
 	}
-	// units whose contract could not be evaluated against the current source because a name it mentions
-	// (a local variable, a field, a loop or literal ordinal) no longer resolves: the contract is stale,
-	// e.g. after a rename. Their obligations are undecided, not violated.
-	staleUnits := map[string]string{}
 	for _, sc := range eng.staleContracts {
 		if hasProp(sc.props, prop) {
 			staleUnits[sc.name] = sc.msg
@@ -210,6 +221,8 @@ func main() {
 			}
 		}
 	}
+	}
+	collect()
 	work := filepath.Join(os.TempDir(), fmt.Sprintf("gocv-%s-%d", prop, os.Getpid()))
 	defer func() {
 		if !*dump {
@@ -228,7 +241,152 @@ func main() {
 			}
 		}
 	}
+	// obligations that are not in the ledger of the unchanged tree can only end up undecided (or, replayed,
+	// as a violation through their model): they get a brief race so that new helpers with hard frame
+	// conditions do not hold the check up
+	if !*update && !*thorough {
+		if data, err := os.ReadFile(filepath.Join(*verif, "baseline", prop+".json")); err == nil {
+			var ls []string
+			if json.Unmarshal(data, &ls) == nil && len(ls) > 0 {
+				known := map[string]bool{}
+				for _, n := range ls {
+					known[n] = true
+				}
+				for _, o := range obls {
+					if !known[o.Name] && !o.Cover {
+						quickNames[o.Name] = true
+					}
+				}
+			}
+		}
+	}
 	solveAll(obls, solveOpts{dir: work, secs: secs, thorough: *thorough, seed: seed, jobs: *jobs, short: quickNames})
+	// Obligations of the ledger that ran out of time (no answer, as opposed to a refutation) get a second,
+	// patient pass with little parallelism: wall-clock budgets must not turn a loaded machine into an alarm.
+	{
+		inLedger := map[string]bool{}
+		if data, err := os.ReadFile(filepath.Join(*verif, "baseline", prop+".json")); err == nil {
+			var ls []string
+			json.Unmarshal(data, &ls)
+			for _, n := range ls {
+				inLedger[n] = true
+			}
+		}
+		var again []*Obligation
+		for _, o := range obls {
+			if o.Result == nil || o.Cover || quickNames[o.Name] || !inLedger[o.Name] {
+				continue
+			}
+			if st := o.Result.Status; st == "timeout" || st == "unknown" || st == "error" {
+				again = append(again, o)
+			}
+		}
+		if len(again) > 0 && len(again) <= 40 {
+			first := map[*Obligation]*SolveResult{}
+			for _, o := range again {
+				first[o] = o.Result
+			}
+			solveAll(again, solveOpts{dir: filepath.Join(work, "retry"), secs: secs, thorough: *thorough, seed: seed, jobs: 3, short: quickNames, patience: 4})
+			for _, o := range again {
+				o.Result.Tried = append(append([]string{}, first[o].Tried...), append([]string{"retry:"}, o.Result.Tried...)...)
+			}
+		}
+	}
+	// Proof repair: where ledger obligations of a function fail (or its contract lost a cut point), try the
+	// same contract with its loop invariants restated over a new local of the same type (the role of a
+	// counter moved to another variable), or with a vanished label's invariants at a new loop. Only
+	// invariants are touched, never requires / ensures / oncall / assert clauses, so a restatement under
+	// which every obligation of the function is discharged is a proof of the same specification.
+	var repairNotes []string
+	var repairedVanish []string // ledger name prefixes replaced by a repaired proof's own obligations
+	if onlyRe == nil && !*update {
+		inLedger := map[string]bool{}
+		if data, err := os.ReadFile(filepath.Join(*verif, "baseline", prop+".json")); err == nil {
+			var ls []string
+			json.Unmarshal(data, &ls)
+			for _, n := range ls {
+				inLedger[n] = true
+			}
+		}
+		problems := func(us []*Unit, vanishOK string) int {
+			if len(us) == 0 {
+				return 0
+			}
+			root := us[0].name
+			n := 0
+			seen := map[string]bool{}
+			for _, u := range us {
+				n += len(u.failed) + len(u.newHelpers)
+				for _, o := range u.obls {
+					if !hasProp(o.Props, prop) {
+						continue
+					}
+					seen[o.Name] = true
+					if inLedger[o.Name] && !quickNames[o.Name] && o.Result != nil && !o.ok() {
+						n++
+					}
+				}
+			}
+			for name := range inLedger {
+				if strings.HasPrefix(name, root+"/") && !seen[name] && !isSafetyName(name) && !isFrameName(name) && !(vanishOK != "" && strings.Contains(name, vanishOK)) {
+					n++
+				}
+			}
+			return n
+		}
+		for _, fn := range fns {
+			us := fnUnits[fn]
+			if len(us) == 0 || problems(us, "") == 0 {
+				continue
+			}
+			vs := eng.repairVariants(fn, eng.contracts[fn])
+			if len(vs) > 8 {
+				vs = vs[:8]
+			}
+			for vi, v := range vs {
+				vus := runFn(fn, v.fc)
+				var vobls []*Obligation
+				for _, u := range vus {
+					for _, o := range u.obls {
+						if hasProp(o.Props, prop) {
+							vobls = append(vobls, o)
+						}
+					}
+				}
+				solveAll(vobls, solveOpts{dir: filepath.Join(work, fmt.Sprintf("repair-%s-%d", funcKey(fn), vi)), secs: secs, thorough: *thorough, seed: seed, jobs: *jobs, short: quickNames})
+				if problems(vus, v.vanishOK) != 0 {
+					continue
+				}
+				note := fmt.Sprintf("%s: proof repair - %s (accepted because every obligation of the function is discharged with it; requires/ensures/oncall/assert clauses unchanged)", funcKey(fn), v.note)
+				repairNotes = append(repairNotes, note)
+				if v.vanishOK != "" {
+					repairedVanish = append(repairedVanish, vus[0].name+v.vanishOK)
+				}
+				vus[0].abstractions[note] = true
+				var keep []*Unit
+				for _, u := range units {
+					mine := false
+					for _, x := range us {
+						if x == u {
+							mine = true
+						}
+					}
+					if !mine {
+						keep = append(keep, u)
+					}
+				}
+				units = append(keep, vus...)
+				fnUnits[fn] = vus
+				break
+			}
+		}
+		if len(repairNotes) > 0 {
+			collect()
+			for _, n := range repairNotes {
+				fmt.Fprintf(os.Stderr, "REPAIRED: %s\n", n)
+			}
+		}
+	}
 	tSolve := time.Since(t0) - tLoad - tGen
 
 	// group into logical obligations
@@ -416,7 +574,16 @@ func main() {
 			// a safety obligation is named after the expression it guards; when that expression is
 			// gone (rewritten, e.g. s[a:len(s)] as s[a:]) there is nothing left to guard - the new
 			// expression carries its own obligation
-			if isSafetyName(n) {
+			if isSafetyName(n) || isFrameName(n) {
+				continue
+			}
+			replaced := false
+			for _, pre := range repairedVanish {
+				if strings.HasPrefix(n, pre) {
+					replaced = true
+				}
+			}
+			if replaced {
 				continue
 			}
 			l := &logical{Name: n, Kind: "vanished", Status: "vanished"}
@@ -684,7 +851,7 @@ func (e *Engine) lemmaUnit(prop string) (ru *Unit) {
 // isStaleContractMsg recognises engine errors that mean "the contract text does not fit the source any
 // more" (as opposed to unsupported code or an internal error).
 func isStaleContractMsg(m string) bool {
-	for _, k := range []string{"unknown name ", "is not defined in the old state", "in a spec expression", "unknown field", "no field or method", "has no field", "has no method", "has no loop", "has no literal", "no such label"} {
+	for _, k := range []string{"unknown name ", "unknown ghost variable $i", "is not defined in the old state", "in a spec expression", "unknown field", "no field or method", "has no field", "has no method", "has no loop", "has no literal", "no such label"} {
 		if strings.Contains(m, k) {
 			return true
 		}
@@ -692,13 +859,17 @@ func isStaleContractMsg(m string) bool {
 	return false
 }
 
+// isFrameName: frame obligations (what a body or a loop writes stays inside its modifies set, at the end
+// and at every break) are generated per location written; code that no longer writes a location, or leaves
+// a loop by return instead of break, generates fewer of them - nothing is left unchecked by that.
+func isFrameName(n string) bool {
+	return strings.Contains(n, "/frame:") || strings.Contains(n, "/frame-break:")
+}
+
 func isSafetyName(n string) bool {
-	i := strings.LastIndex(n, "/")
-	if i < 0 {
-		return false
-	}
+	// the expression text after the kind may itself contain slashes (div@chunks/8)
 	for _, k := range []string{"bounds@", "div@", "sub@", "make@", "alloc@", "nil@", "conv@", "overflow@", "lock@", "unlock@", "balance@", "lockinv@", "guard@", "guarantee@"} {
-		if strings.HasPrefix(n[i+1:], k) {
+		if strings.Contains(n, "/"+k) {
 			return true
 		}
 	}
